@@ -75,7 +75,8 @@ def r1_registry(ctx, reg: dict[str, str]) -> None:
                 and not any(d.endswith("abstractmethod") for d in prog.lookup_method(c, "modify").decorators)]
     registered = set(reg.values())
     for c in concrete:
-        has_const_base = c.rsplit(".", 1)[-1] in ("SigmaCompareModifier", "SigmaTimestampModifier", "SigmaRegularExpressionFlagModifier", "SigmaValueModifier", "SigmaListModifier")
+        # a class that registered classes derive from is a generic base: its subclasses supply the constants / are the reachable forms
+        has_const_base = c.rsplit(".", 1)[-1] in ("SigmaValueModifier", "SigmaListModifier") or any(sc in registered for sc in prog.subclasses(c, strict=True))
         if c.endswith(".SigmaNotEqualModifier"):
             r.ok("C03.R1", c, "kept but deliberately unregistered: the identifier 'neq' is implemented by SigmaNegateModifier (negation of the whole item), this numeric variant is unreachable from rules")
         elif c in registered:
@@ -110,33 +111,89 @@ def r2_type_gate(ctx) -> None:
     r, prog = ctx.r, ctx.prog
     r.rule("C03.R2", "the type gate is unavoidable: in SigmaModifier.apply every path to modify(val) passes type_check(val) with SigmaTypeError on failure; expansion members go through apply again; apply_modifiers reaches modify only through apply")
     ap = prog.func(BASE + ".apply")
-    mods = [c for c in walk_no_nested(ap.node) if isinstance(c, ast.Call) and call_name(c) == "self.modify"]
-    if not mods:
-        raise AnalysisError(f"{ap.qual}: no self.modify call")
-    loc = f"{ap.module.relpath}:{mods[0].lineno}"
-    for mc in mods:
-        gs = atomic_guards(guards_at(prog, ap, mc))
-        mloc = f"{ap.module.relpath}:{mc.lineno}"
-        if ("self.type_check(val)", True) in gs and ("isinstance(val, SigmaExpansion)", False) in gs and [unparse(a) for a in mc.args] == ["val"]:
-            r.ok("C03.R2", ap.qual, "modify(val) only after type_check(val) succeeded, for non-expansion values", mloc)
-        else:
-            r.violation("C03.R2", ap.qual, short(mc), f"modify() reachable without a successful type_check of its argument (facts: {gs}): an inadmissible chain produces a value instead of SigmaTypeError", mloc)
-    fails = [n for n in walk_no_nested(ap.node) if isinstance(n, ast.If) and unparse(n.test) == "not self.type_check(val)"]
-    if fails and isinstance(fails[0].body[0], ast.Raise) and "SigmaTypeError" in unparse(fails[0].body[0]):
-        r.ok("C03.R2", ap.qual, "failed type check raises SigmaTypeError", loc)
+    loc = ap.loc
+    # apply() interpreted (sa.tabulate, Proxy: helper methods and the recursion resolve from the source) with a recording
+    # modify() and a type gate that admits a chosen set of values
+    from ..tabulate import Proxy, call_method, Raised
+    import typing as _typing
+    import types as _types
+
+    class SigmaExpansion:
+        def __init__(self, values): self.values = list(values)
+
+    class SigmaTypeError(Exception):
+        def __init__(self, *a, **k): super().__init__(*a)
+
+    env = {"SigmaExpansion": SigmaExpansion, "SigmaTypeError": SigmaTypeError, "cast": lambda t, v: v, "T": None, "SigmaType": object}
+    IK = {"behaviours": (SigmaTypeError,), "max_steps": 6000}
+
+    def run_apply(val, admitted, results):
+        calls, checked = [], []
+
+        def modify(v):
+            calls.append(v)
+            return results.get(v, f"m({v})")
+
+        def type_check(v, explicit_type=None):
+            checked.append(v)
+            return v in admitted
+        me = Proxy(prog, BASE, env, {"modify": modify, "type_check": type_check, "source": None}, interp_kwargs=IK)
+        try:
+            out = call_method(prog, BASE, "apply", me, env, val, interp_kwargs=IK)
+        except Raised as ex:
+            out = ex
+        return out, calls, checked
+
+    def show(o):
+        if isinstance(o, SigmaExpansion):
+            return "Expansion" + repr([show(x) for x in o.values])
+        if isinstance(o, list):
+            return [show(x) for x in o]
+        return o
+
+    gate, regate, flat = [], [], []
+    out, calls, checked = run_apply("a", {"a"}, {})
+    if show(out) != ["m(a)"] or calls != ["a"] or "a" not in checked:
+        gate.append(f"admitted plain value: result {show(out)!r}, modify called with {calls}, gate asked about {checked}")
+    out, calls, checked = run_apply("a", {"a"}, {"a": ["x", "y"]})
+    if show(out) != ["x", "y"]:
+        gate.append(f"modify returning a list: result {show(out)!r} instead of its items")
+    out, calls, checked = run_apply("b", {"a"}, {})
+    if not (isinstance(out, Raised) and "SigmaTypeError" in str(out)) or calls:
+        gate.append(f"value the gate rejects: {'modify() was called with ' + repr(calls) if calls else 'result ' + repr(show(out))} instead of SigmaTypeError")
+    # the gate is asked whatever the class of the value is: one stand-in per value class of sigma.types
+    tm = prog.module("sigma.types")
+    for cn in sorted(c.rsplit(".", 1)[-1] for c in prog.subclasses("sigma.types.SigmaType", strict=True) if c.startswith("sigma.types.")):
+        if cn == "SigmaExpansion":
+            continue
+        K = type(cn, (), {"__repr__": lambda self: f"<{type(self).__name__}>"})
+        env[cn] = K
+        v = K()
+        out, calls, checked = run_apply(v, set(), {})
+        if not (isinstance(out, Raised) and "SigmaTypeError" in str(out)) or calls:
+            gate.append(f"{cn} value the gate rejects: {'modify() was called with it' if calls else 'result ' + repr(show(out))} instead of SigmaTypeError")
+        env.pop(cn)
+    out, calls, checked = run_apply(SigmaExpansion(["a", "b"]), {"a", "b"}, {})
+    if show(out) != ["Expansion['m(a)', 'm(b)']"] or calls != ["a", "b"] or not {"a", "b"} <= set(checked):
+        regate.append(f"expansion of admitted members: result {show(out)!r}, modify called with {calls}, gate asked about {[show(c) for c in checked]}")
+    out, calls, checked = run_apply(SigmaExpansion(["a", "b"]), {"a"}, {})
+    if not (isinstance(out, Raised) and "SigmaTypeError" in str(out)) or "b" in calls:
+        regate.append(f"expansion with a member the gate rejects: {'modify() was called with it' if 'b' in calls else 'result ' + repr(show(out))} instead of SigmaTypeError")
+    out, calls, checked = run_apply(SigmaExpansion(["a", "b"]), {"a", "b"}, {"a": SigmaExpansion(["x", "y"]), "b": ["p", "q"]})
+    if show(out) != ["Expansion['x', 'y', 'p', 'q']"]:
+        flat.append(f"members that expand again: result {show(out)!r} instead of one flat expansion of x, y, p, q")
+    if not gate:
+        r.ok("C03.R2", ap.qual, "modify(val) only after type_check(val) succeeded; a failed type check raises SigmaTypeError (interpreted)", loc)
     else:
-        r.violation("C03.R2", ap.qual, "if not self.type_check(val): raise SigmaTypeError", "a failed type check does not raise SigmaTypeError", loc)
-    rec = [c for c in walk_no_nested(ap.node) if isinstance(c, ast.Call) and call_name(c) == "self.apply"]
-    if rec and ("isinstance(val, SigmaExpansion)", True) in atomic_guards(guards_at(prog, ap, rec[0])) and "for v in val.values" in unparse(ap.node):
-        r.ok("C03.R2", ap.qual, "expansion members are fed through apply() again (gated individually)", loc)
+        r.violation("C03.R2", ap.qual, f"apply: {gate[0]}", "modify() reachable without a successful type_check of its argument, or a failed type check does not raise SigmaTypeError: an inadmissible chain produces a value instead of SigmaTypeError", loc)
+    if not regate:
+        r.ok("C03.R2", ap.qual, "expansion members are fed through the gate individually (interpreted)", loc)
     else:
-        r.violation("C03.R2", ap.qual, "SigmaExpansion branch", "members of an expansion value are not re-gated through apply()", loc)
-    # an expansion member that is expanded again must not nest: every consumer iterates one level of .values
-    flat = any(isinstance(n, ast.If) and unparse(n.test) in ("isinstance(va, SigmaExpansion)",) and any("extend" in unparse(b) and ".values" in unparse(b) for b in n.body) for n in walk_no_nested(ap.node))
-    if flat:
-        r.ok("C03.R2", ap.qual, "results of expansion members that are expansions themselves are merged into one flat expansion", loc)
+        r.violation("C03.R2", ap.qual, f"SigmaExpansion branch: {regate[0]}", "members of an expansion value are not re-gated through apply()", loc)
+    if not flat:
+        r.ok("C03.R2", ap.qual, "results of expansion members that are expansions themselves are merged into one flat expansion (interpreted)", loc)
     else:
-        r.violation("C03.R2", ap.qual, "SigmaExpansion([... for va in self.apply(v)])", "an expanding modifier applied to an expansion (windash|base64offset, base64offset|base64offset) nests an expansion inside an expansion: conversion iterates one level of values and fails with AttributeError on the inner one", loc)
+        r.violation("C03.R2", ap.qual, f"SigmaExpansion branch: {flat[0]}", "an expanding modifier applied to an expansion (windash|base64offset, base64offset|base64offset) nests an expansion inside an expansion: conversion iterates one level of values and fails with AttributeError on the inner one", loc)
     am = prog.func("sigma.rule.detection.SigmaDetectionItem.apply_modifiers")
     calls = [call_name(c) for c in walk_no_nested(am.node) if isinstance(c, ast.Call)]
     if "modifier_instance.apply" in calls and not any(c.endswith(".modify") for c in calls):
@@ -155,12 +212,41 @@ def r2_type_gate(ctx) -> None:
                 r.violation("C03.R2", q, short(c, 80), "modify() of a modifier called outside SigmaModifier.apply", f"{f.module.relpath}:{c.lineno}")
     # type_check: annotation-driven
     tc = prog.func(BASE + ".type_check")
-    src = unparse(tc.node)
-    if "self._get_modify_type_hint()" in src and "isinstance(val, th)" in src and "return False" in src:
-        r.ok("C03.R2", tc.qual, "type_check derives the admitted classes from modify()'s annotation; unknown shapes → False", tc.loc)
+    tenv = {"get_origin": _typing.get_origin, "get_args": _typing.get_args, "Union": _typing.Union, "Any": _typing.Any, "types": _types, "Optional": _typing.Optional, "typing": _typing}
+    hints = [
+        (_typing.Any, [("a", True), (1, True), (None, True)]),
+        (str, [("a", True), (1, False), (["a"], False)]),
+        (_typing.Union[str, int], [("a", True), (1, True), (1.5, False), (["a"], False)]),
+        (str | int, [("a", True), (1, True), (1.5, False)]),
+        (list[str], [(["a", "b"], True), (["a", 1], False), ("a", False), ([], True)]),
+        (list[_typing.Union[str, int]], [(["a", 1], True), (["a", 1.5], False)]),
+        (_typing.Sequence[str], [(["a"], False), ("a", False)]),
+    ]
+    wrong = []
+    ncases = 0
+    for hint, samples in hints:
+        for v, want in samples:
+            ncases += 1
+            me = Proxy(prog, BASE, tenv, {"_get_modify_type_hint": (lambda h=hint: h)}, interp_kwargs={"max_steps": 4000})
+            try:
+                got = call_method(prog, BASE, "type_check", me, tenv, v, interp_kwargs={"max_steps": 4000})
+            except Raised as ex:
+                got = f"<raises {ex}>"
+            if got is not want:
+                wrong.append(f"annotation {hint}, value {v!r}: {got!r} instead of {want}")
+    ncases += 1
+    me = Proxy(prog, BASE, tenv, {"_get_modify_type_hint": (lambda: str)}, interp_kwargs={"max_steps": 4000})
+    try:
+        got = call_method(prog, BASE, "type_check", me, tenv, 1, interp_kwargs={"max_steps": 4000}, explicit_type=int)
+    except Raised as ex:
+        got = f"<raises {ex}>"
+    if got is not True:
+        wrong.append(f"explicit_type=int, value 1: {got!r} instead of True")
+    if not wrong:
+        r.ok("C03.R2", tc.qual, f"type_check derives the admitted classes from modify()'s annotation; unknown shapes → False ({ncases} interpreted cases: Any, plain, both union forms, list[…])", tc.loc)
     else:
-        r.violation("C03.R2", tc.qual, "type_check", "type_check no longer derives admissibility from the modify() annotation with a closing `return False`", tc.loc)
-    r.floor("C03.R2", 6)
+        r.violation("C03.R2", tc.qual, f"type_check: {wrong[0]}", f"{len(wrong)} of {ncases} interpreted cases deviate: type_check no longer derives admissibility from the modify() annotation (unknown shapes must be refused)", tc.loc)
+    r.floor("C03.R2", 5)
 
 
 def r3_wildcard_adders(ctx) -> None:
@@ -168,42 +254,10 @@ def r3_wildcard_adders(ctx) -> None:
     r.rule("C03.R3", "wildcard adders: a leading wildcard is added only when the value does not start with one, a trailing one only when it does not end with one; contains has both, startswith only the trailing, endswith only the leading; regex branches mirror it with '.*' and anchors; field references get the matching flags")
     spec = {"SigmaContainsModifier": (True, True), "SigmaStartswithModifier": (False, True), "SigmaEndswithModifier": (True, False)}
     for cn, (lead, trail) in spec.items():
-        f = prog.func(f"{M}.{cn}.modify")
-        got_lead = got_trail = False
-        for n in walk_no_nested(f.node):
-            if isinstance(n, (ast.Assign, ast.AugAssign)):
-                tgt = unparse(n.targets[0] if isinstance(n, ast.Assign) else n.target)
-                val = unparse(n.value)
-                gs = atomic_guards(guards_at(prog, f, n))
-                loc = f"{f.module.relpath}:{n.lineno}"
-                if tgt == "val" and isinstance(n, ast.Assign) and val == "SpecialChars.WILDCARD_MULTI + val":
-                    got_lead = True
-                    if ("val.startswith(SpecialChars.WILDCARD_MULTI)", False) in gs and ("isinstance(val, SigmaString)", True) in gs:
-                        r.ok("C03.R3", f.qual, "leading wildcard only if not already present", loc)
-                    else:
-                        r.violation("C03.R3", f.qual, unparse(n), f"leading wildcard added without the `not val.startswith(WILDCARD_MULTI)` guard ({gs})", loc)
-                elif tgt == "val" and ((isinstance(n, ast.AugAssign) and val == "SpecialChars.WILDCARD_MULTI") or val == "val + SpecialChars.WILDCARD_MULTI"):
-                    got_trail = True
-                    if ("val.endswith(SpecialChars.WILDCARD_MULTI)", False) in gs and ("isinstance(val, SigmaString)", True) in gs:
-                        r.ok("C03.R3", f.qual, "trailing wildcard only if not already present", loc)
-                    else:
-                        r.violation("C03.R3", f.qual, unparse(n), f"trailing wildcard added without the `not val.endswith(WILDCARD_MULTI)` guard ({gs})", loc)
-                elif tgt in ("val.starts_with", "val.ends_with"):
-                    pass
-        _r3_regex_branch(ctx, f, cn, lead, trail)
-        if got_lead != lead or got_trail != trail:
-            r.violation("C03.R3", f.qual, f"adds leading={got_lead}, trailing={got_trail}", f"{cn} must add leading={lead}, trailing={trail} wildcards to plain strings", f.loc)
-        flags = {unparse(n.targets[0]): unparse(n.value) for n in walk_no_nested(f.node) if isinstance(n, ast.Assign) and unparse(n.targets[0]) in ("val.starts_with", "val.ends_with")}
-        want_flags = {"SigmaContainsModifier": {"val.starts_with": "True", "val.ends_with": "True"}, "SigmaStartswithModifier": {"val.starts_with": "True"}, "SigmaEndswithModifier": {"val.ends_with": "True"}}[cn]
-        if flags == want_flags:
-            r.ok("C03.R3", f.qual, f"field reference flags {flags}", f.loc)
-        else:
-            r.violation("C03.R3", f.qual, f"field reference flags {flags}", f"expected {want_flags}", f.loc)
-        rets = [x for x in walk_no_nested(f.node) if isinstance(x, ast.Return)]
-        if len(rets) == 1 and unparse(rets[0].value) == "val":
-            r.ok("C03.R3", f.qual, "returns the (possibly extended) value", f.loc)
-        else:
-            r.violation("C03.R3", f.qual, "return val", "modifier does not return the modified value on every path", f.loc)
+        f = prog.lookup_method(f"{M}.{cn}", "modify")
+        if f is None:
+            raise AnalysisError(f"anchor vanished: {M}.{cn}.modify")
+        _r3_wildcard_table(ctx, f, cn, lead, trail)
     # the same guard-action rule for the keyword-to-field wildcard adder
     f = prog.func("sigma.processing.transformations.base.FieldMappingTransformationBase._add_wildcards_to_value")
     src = [unparse(n) for n in f.node.body if isinstance(n, ast.If)]
@@ -212,7 +266,7 @@ def r3_wildcard_adders(ctx) -> None:
         r.ok("C03.R3", f.qual, "keyword→field mapping adds only missing wildcards, tested on the parsed value", f.loc)
     else:
         r.violation("C03.R3", f.qual, " / ".join(s.split(":")[0] for s in src), "wildcards must be tested on the parsed SigmaString (startswith/endswith of WILDCARD_MULTI), not on its text: an escaped literal '*' at the edge is not a wildcard", f.loc)
-    r.floor("C03.R3", 14)
+    r.floor("C03.R3", 10)
 
 
 REGEX_SAMPLES = ["foo", ".*foo", "foo.*", "^foo", "foo$", "foo\\$", "foo\\\\$", "foo\\.*", "foo\\\\.*", ".*foo.*", "^foo$", "\\.*foo", "", "a|b", "foo\\\\\\$"]
@@ -225,57 +279,81 @@ def _unescaped_tail(rx: str, tail: str) -> bool:
     return (len(head) - len(head.rstrip("\\"))) % 2 == 0
 
 
-def _r3_regex_branch(ctx, f: FuncInfo, cn: str, lead: bool, trail: bool) -> None:
-    """The regular-expression branch of a wildcard adder, tabulated: modify() is interpreted (sa.tabulate, nothing of pySigma
-    runs) on a stand-in regular expression for each sample text; the result must be the text with '.*' added in front
-    unless it starts with '.*' or '^', and behind unless it ends with an *unescaped* '.*' or '$'."""
-    from ..tabulate import Interp, Raised
+PLAIN_SAMPLES = [["a", "b", "c"], ["*", "a", "b"], ["a", "b", "*"], ["*", "a", "*"], [], ["*"], ["a", "b", "\\*"], ["\\*", "a"], ["?", "a", "?"], ["a", "*", "b"]]
+
+
+def _r3_wildcard_table(ctx, f: FuncInfo, cn: str, lead: bool, trail: bool) -> None:
+    """A wildcard adder, tabulated: modify() of the concrete class is interpreted (sa.tabulate, Proxy — inherited bodies and
+    class constants resolve from the source; nothing of pySigma runs) on stand-in values.
+    plain strings: sequences of characters, wildcards and *escaped* wildcard characters — a multi wildcard is added in front
+    (behind) exactly if the class asks for it and the first (last) element is not the multi wildcard itself;
+    regular expressions: '.*' is added in front unless the text starts with '.*' or '^', and behind unless it ends with an
+    *unescaped* '.*' or '$'; field references get the matching flags; the modified value is returned."""
+    from ..tabulate import Proxy, call_method, Raised
     r, prog = ctx.r, ctx.prog
 
     class _W:  # SpecialChars.WILDCARD_MULTI
-        pass
+        def __repr__(self): return "<*>"
 
-    class _S:  # SigmaString stand-in: text with '*' for the multi wildcard
+    wm = _W()
+
+    class _S:  # SigmaString stand-in: elements are characters, the multi wildcard (wm) or an escaped literal ('\\*')
         def __init__(self, t=""):
-            self.t = t
+            self.e = [wm if c == "*" else c for c in t] if isinstance(t, str) else list(t)
 
-        def __add__(self, o):
-            return _S(self.t + ("*" if isinstance(o, _W) or o is _W else o.t))
+        @staticmethod
+        def _el(o):
+            return [wm] if o is wm else list(o.e) if isinstance(o, _S) else [wm if c == "*" else c for c in o]
 
-        def __radd__(self, o):
-            return _S(("*" if isinstance(o, _W) or o is _W else o.t) + self.t)
-
-        def __str__(self):
-            return self.t
+        def __add__(self, o): return _S(self.e + _S._el(o))
+        def __radd__(self, o): return _S(_S._el(o) + self.e)
+        def startswith(self, o): return bool(self.e) and (self.e[0] is wm if o is wm else str(self).startswith(o))
+        def endswith(self, o): return bool(self.e) and (self.e[-1] is wm if o is wm else str(self).endswith(o))
+        def __str__(self): return "".join("*" if x is wm else x for x in self.e)
+        def __len__(self): return len(self.e)
 
     class _RX:
         def __init__(self, t, *args, **kwargs):
             self.regexp = t if isinstance(t, _S) else _S(t)
+            self.compiled = 0
 
         def compile(self):
-            return None
+            self.compiled += 1
 
     class _FR:
-        pass
+        def __init__(self, field="f", starts_with=False, ends_with=False): self.field, self.starts_with, self.ends_with = field, starts_with, ends_with
 
-    wm = _W()
     sc = type("SpecialChars", (), {"WILDCARD_MULTI": wm})
-    env = {"SigmaString": _S, "SigmaRegularExpression": _RX, "SigmaFieldReference": _FR, "SpecialChars": sc, "self": object()}
-    # module-level helper functions of sigma.modifiers that the body calls
-    helpers = {}
-    for st in f.module.tree.body:
-        if isinstance(st, ast.FunctionDef):
-            helpers[st.name] = st
+    env = {"SigmaString": _S, "SigmaRegularExpression": _RX, "SigmaFieldReference": _FR, "SpecialChars": sc}
+    cq = f"{M}.{cn}"
+
+    def modify(v):
+        me = Proxy(prog, cq, env, {"applied_modifiers": [], "source": None, "detection_item": None}, interp_kwargs={"max_steps": 4000})
+        try:
+            return call_method(prog, cq, "modify", me, env, v, interp_kwargs={"max_steps": 4000})
+        except Raised as ex:
+            return ex
+
+    bad = []
+    for els in PLAIN_SAMPLES:
+        src = _S([wm if x == "*" else x for x in els])
+        out = modify(src)
+        want = ([wm] if lead and not (src.e and src.e[0] is wm) else []) + src.e
+        want = want + ([wm] if trail and not (want and want[-1] is wm and (src.e and src.e[-1] is wm or not src.e and lead)) else [])
+        # an empty value asked for both sides: one or two wildcards denote the same; accept both
+        got = out.e if isinstance(out, _S) else None
+        okp = got is not None and (len(got) == len(want) and all(a is b or a == b for a, b in zip(got, want)) or (not src.e and lead and trail and got in ([wm], [wm, wm])))
+        if not okp:
+            bad.append((f"plain value {els}", f"gives {got if got is not None else out!r}, specified {want}"))
+    if bad:
+        what, why = bad[0]
+        r.violation("C03.R3", f.qual, f"{cn}.modify on {what}", f"{why} (+{len(bad) - 1} more sample(s)): a leading wildcard is added only when the value does not start with one, a trailing one only when it does not end with one (an escaped '*' at the edge is a literal character, the wildcard is still missing); {cn} adds leading={lead}, trailing={trail}", f.loc)
+    else:
+        r.ok("C03.R3", f.qual, f"plain strings tabulated on {len(PLAIN_SAMPLES)} samples: leading={lead}, trailing={trail} wildcard added exactly where missing; the modified value is returned", f.loc)
     bad = []
     for rx in REGEX_SAMPLES:
-        it = Interp(dict(env, val=_RX(rx)))
-        for name, st in helpers.items():
-            it.env[name] = it._make_function(st)
-        try:
-            out = it.call(f.node.body)
-        except Raised as ex:
-            bad.append((rx, f"raises {ex}"))
-            continue
+        v = _RX(rx)
+        out = modify(v)
         got = str(out.regexp) if isinstance(out, _RX) else repr(out)
         want = ("" if not lead or rx.startswith(".*") or rx.startswith("^") else ".*") + rx + \
                ("" if not trail or _unescaped_tail(rx, ".*") or _unescaped_tail(rx, "$") else ".*")
@@ -287,6 +365,18 @@ def _r3_regex_branch(ctx, f: FuncInfo, cn: str, lead: bool, trail: bool) -> None
                     f"{why} (+{len(bad) - 1} more sample(s)): '.*' is added in front unless the expression starts with '.*' or '^', and behind unless it ends with an unescaped '.*' or '$' — a '$' or '.' behind an odd number of backslashes is a literal character, the wildcard is still missing", f.loc)
     else:
         r.ok("C03.R3", f.qual, f"regular expression branch tabulated on {len(REGEX_SAMPLES)} sample texts: '.*' added exactly where missing (escaped tails counted as literals)", f.loc)
+    badf = []
+    for sw in (False, True):
+        for ew in (False, True):
+            out = modify(_FR("fld", sw, ew))
+            flags = (out.field, out.starts_with, out.ends_with) if isinstance(out, _FR) else repr(out)
+            want_flags = ("fld", sw or trail, ew or lead)
+            if flags != want_flags:
+                badf.append(f"reference (field, starts_with, ends_with)=('fld', {sw}, {ew}) becomes {flags}, expected {want_flags}")
+    if not badf:
+        r.ok("C03.R3", f.qual, f"field reference flags: starts_with |= {trail}, ends_with |= {lead}; flags set by an earlier modifier are kept", f.loc)
+    else:
+        r.violation("C03.R3", f.qual, f"field reference flags: {badf[0]}", f"{len(badf)} of 4 cases deviate: the modifier adds its own flag(s) to the reference and keeps those an earlier modifier of the chain has set", f.loc)
 
 
 def r4_effects(ctx, reg: dict[str, str]) -> None:
